@@ -623,6 +623,79 @@ def rule_r7_contract(ctx: Ctx) -> None:
     ctx.check(not foreign, ser.short + ".__eq__", "foreign operands (int, str, None, tuple) compare unequal", "comparison with a foreign value yields False (through NotImplemented), never an exception or True", where_eq, foreign[:4])
 
 
+def rule_r9_accessor_copies(ctx: Ctx) -> None:
+    """R4 looks for `return self._x` where `_x` was stored from a mutable source.  This rule asks the objects themselves: every
+    instance of the pool (types and attributes built by their own constructors) is asked every public property and
+    argument-less public method; whatever comes back as a list / dict / set / bytearray is then modified by the caller
+    (an element appended, the order reversed, emptied) and the object is asked everything again."""
+    from ..absint import Evaluator, Raised, aobj_member
+    from ..fold import Folder, Unfoldable
+
+    ctx.rule("C18.R9", "lists returned by accessors are copies: every public property / argument-less method of every constructed type and attribute answers the same before and after the caller has modified each container that any of them returned [evaluated from the source on the pool of R7]", min_instances=10)
+    pool, hook = _model_pool(ctx)
+    seen_cls: Set[str] = set()
+    MUTATE = ast.parse("def m(got):\n    if isinstance(got, list):\n        got.append(got[0] if got else 1)\n        got.reverse()\n        got.clear()\n    elif isinstance(got, dict):\n        got.clear()\n    elif isinstance(got, set):\n        got.add(-1)\n        got.clear()\n    else:\n        got.extend(b'x')\n").body[0].body
+
+    def members(obj: Any) -> List[str]:
+        out = []
+        for k in ctx.repo.mro(obj._cls_):
+            if not isinstance(k, ClassInfo):
+                continue
+            for name, fn in k.methods.items():
+                if name.startswith("_") or name in out or fn.is_static or fn.is_classmethod or name.endswith(".setter"):
+                    continue
+                n_required = len(fn.params) - 1 - len(fn.node.args.defaults)
+                if fn.is_property or (n_required <= 0 and not fn.node.args.kwonlyargs and name not in ("iterate_fields_with_offsets", "enumerate_elements_with_offsets")):
+                    out.append(name)
+        return sorted(out)
+
+    def snap(v: Any, f: Any) -> Any:
+        if isinstance(v, (list, tuple)):
+            return (type(v).__name__, tuple(snap(x, f) for x in v))
+        if isinstance(v, dict):
+            return ("dict", tuple(sorted((repr(k), snap(x, f)) for k, x in v.items())))
+        if isinstance(v, (set, frozenset)):
+            return ("set", tuple(sorted(repr(snap(x, f)) for x in v)))
+        if type(v).__name__ == "AObj":
+            return ("obj", v._cls_.name, id(v) if v._cls_.name not in ("BitLengthSet",) else 0)
+        if type(v).__name__ == "_BoundMethod":
+            return ("method",)
+        return repr(v)
+
+    def ask_all(obj: Any, names: List[str]) -> Dict[str, Any]:
+        out: Dict[str, Any] = {}
+        for nm in names:
+            f = Folder({"x": obj}, ctx.repo, obj._cls_.module, None, hook)
+            m = ctx.repo.lookup_method(obj._cls_, nm)
+            try:
+                out[nm] = f.fold(ast.parse("x.%s" % nm if m is not None and m.is_property else "x.%s()" % nm, mode="eval").body)
+            except Raised as r:
+                out[nm] = ("raised", r.cls_name)
+            except Unfoldable:
+                out[nm] = ("not evaluated",)
+        return out
+
+    n = 0
+    for label, obj, _key in pool:
+        if obj._cls_.name in seen_cls:
+            continue
+        seen_cls.add(obj._cls_.name)
+        names = members(obj)
+        first = ask_all(obj, names)
+        before = {k: snap(v, None) for k, v in first.items()}
+        mutable = [k for k, v in first.items() if isinstance(v, (list, dict, set, bytearray))]
+        for k in mutable:
+            try:
+                Evaluator({"got": first[k]}, ctx.repo, obj._cls_.module, None, hook).run(MUTATE)
+            except (Raised, Unfoldable) as ex:
+                raise AnalysisError("the caller-side modification of %s.%s cannot be evaluated: %s" % (obj._cls_.name, k, ex))
+        after = {k: snap(v, None) for k, v in ask_all(obj, names).items()}
+        n += 2 * len(names)
+        changed = sorted(k for k in before if before[k] != after[k])
+        ctx.check(not changed, obj._cls_.short, "%d public members, %d of them returning containers (%s)" % (len(names), len(mutable), ", ".join(mutable) or "-"), "modifying what an accessor returned must not change what the object answers", obj._cls_.module.relpath, {"changed": changed[:4], "before": {k: repr(before[k])[:100] for k in changed[:2]}, "after": {k: repr(after[k])[:100] for k in changed[:2]}}, nontrivial=bool(mutable))
+    ctx.count(n)
+
+
 def run(ctx: Ctx) -> None:
     ctx.attempt(rule_r7_contract, ctx)
     ctx.attempt(rule_r8_bls_contract, ctx)
@@ -630,6 +703,7 @@ def run(ctx: Ctx) -> None:
     ctx.attempt(rule_r3, ctx)
     ctx.attempt(rule_r4, ctx)
     ctx.attempt(rule_r5, ctx)
+    ctx.attempt(rule_r9_accessor_copies, ctx)
     from . import c01
 
     # immutability also fails through aliases: a memoised residue set handed out by reference and modified by the caller
